@@ -1,7 +1,7 @@
 (* C15 — files changing during a run never corrupt the backup. *)
 From Coq Require Import List Arith NArith Lia Bool.
 Import ListNotations.
-Require Import FileReader AddFileDyn W_C15.
+Require Import FileReader AddFileDyn W_C15 FileReaderPrefix.
 Local Open Scope nat_scope.
 
 (* FileReader over an ARBITRARY underlying reader (any sequence of short reads, early EOF, data after EOF; the only
@@ -90,6 +90,16 @@ Check C15_scripted_reader_instance : forall sizes sc size,
   | Failed _ => True
   | OutOfFuel _ => False
   end.
+
+(* ... and for that reader the real (hashed, counted) bytes are exactly the first `size` bytes the file delivered before
+   its first end-of-file: a prefix of what was on disk for a file that shrank or grew *)
+Theorem C15_real_is_prefix : forall sizes sc size out f,
+  run (list sitem) srd (bz_of sizes) sc size = Done _ out f ->
+  real _ f = firstn size (before_eof sc).
+Proof. exact scripted_real_is_prefix. Qed.
+Check C15_real_is_prefix : forall sizes sc size out f,
+  run (list sitem) srd (bz_of sizes) sc size = Done _ out f ->
+  real _ f = firstn size (before_eof sc).
 
 (* non-vacuity: a file that shrinks to 2 bytes while 5 were declared *)
 Example C15_example :
